@@ -494,7 +494,7 @@ pub fn decorate_for_world_c(prop: &str, plan: &mut Plan) {
     // C13 wrappers are per-event: a third of the runs feed them arbitrary (non-abiding) streams
     plan.writer.verbosity = u8::from(prop == "C13" && r.chance(1, 3));
     // one run in twelve of C12 takes its history from a real simulated run of runner::Basic
-    plan.writer.real_runner = prop == "C12" && r.chance(1, 12);
+    plan.writer.real_runner = matches!(prop, "C12" | "C11") && r.chance(1, 12);
     if prop == "C12" && !plan.writer.real_runner && r.chance(1, 6) {
         // scenarios of different features / rules sharing name (and, for equal shapes, line):
         // counters must key scenarios by identity, not by name
@@ -623,6 +623,7 @@ pub fn execute_b(prop: &str, plan: &Rc<Plan>) -> Result<Executed, String> {
                 let a = Analysis::new(plan, &h);
                 let mut w = Vec::new();
                 oracle_a::c02(&a, &mut w);
+                oracle_a::retry_eligibility(&a, &mut w);
                 if let Some(first) = w.into_iter().next() {
                     v.push(Violation::new("C01", "verdict-of-a-stream-the-plan-does-not-dictate", format!("the verdict follows the stream, but the stream is not what the plan dictates: {}", first.msg)).attr("what", first.attrs.get("what").cloned().unwrap_or_default()));
                 }
@@ -636,7 +637,7 @@ pub fn execute_b(prop: &str, plan: &Rc<Plan>) -> Result<Executed, String> {
 /// Runs `plan` in world C and evaluates `prop`'s oracle.
 pub fn execute_c(prop: &str, plan: &Rc<Plan>) -> Result<Executed, String> {
     let which = stack_name(prop, plan);
-    let ch = if prop == "C12" && plan.writer.real_runner { crate::worldc::run_real_runner_c12(plan)? } else { crate::worldc::run_world_c(plan, &which)? };
+    let ch = if matches!(prop, "C12" | "C11") && plan.writer.real_runner { crate::worldc::run_real_runner_c12(plan)? } else { crate::worldc::run_world_c(plan, &which)? };
     let mut v = Vec::new();
     match prop {
         "C11" => crate::worldc::c11(&ch, &mut v),
